@@ -761,16 +761,33 @@ def call_method(I, o, name, args, kw, st, n):
         if hk:
             r = hk("call", o, name, (args, kw), st)
             if r is not NotImplemented: return r
-        if o.cls:
-            k = f"{o.cls}.{name}"
-            if I.repo.has(k):
-                return I.call_func(Func(k, I.repo.get(k)), [o] + list(args), kw, st, n)
+        if isinstance(o, SuperObj):
+            m = I.find_method(o.obj.cls, name, after=o.after)
+            if m is None: return None if name == "__init__" else Opaque(f"super().{name}")
+            return I.call_func(Func(m, I.repo.get(m)), [o.obj] + list(args), kw, st, n)
+        if o.cls and I.repo.has(o.cls):
+            m = I.find_method(o.cls, name)
+            if m is not None:
+                return I.call_func(Func(m, I.repo.get(m)), [o] + list(args), kw, st, n)
         return Opaque(f"method {name}")
     return Opaque(f"method {name} of {type(o).__name__}")
 
 
 class CudaLaunchT:
     pass
+
+
+class SuperObj(Obj):
+    def __init__(s, obj, after):
+        Obj.__init__(s, "super"); s.obj = obj; s.after = after
+
+
+def h_super(I, args, kw, st, n):
+    me = st.env.get("self")
+    fk = getattr(st, "fn_key", "")
+    cls = fk.rsplit(".", 1)[0] if "." in fk.split("::")[-1] else None
+    if not isinstance(me, Obj) or cls is None: return Opaque("super() outside a method")
+    return SuperObj(me, cls)
 
 
 def arr_reshape(o, args, st):
@@ -799,3 +816,6 @@ def arr_reshape(o, args, st):
         (rv, rc), (cv, cc) = A.axes
         body = subst_val(A.body, {rv: mk_fn("floor", [flat / cc]), cv: mk_fn("mod", [flat, cc])})
     return Arr([(iv, xs[0]), (jv, xs[1])], body)
+
+
+_reg("builtins.super", h_super)
